@@ -1,0 +1,82 @@
+// Verification hooks. Everything in this header is inert unless the
+// translation unit is compiled with -DSPECTRA_VERIF: with the guard off the
+// two macros below expand to nothing and no symbol is declared.
+//
+// With the guard on, instrumented classes emit one event per abstract action
+// (after the state change it reports) to a per-thread sink installed by a
+// verification harness, and grant the harness friend access so that it can
+// *measure* private state (never change the library's behaviour).
+
+#ifndef SPECTRA_VERIF_HOOK_H
+#define SPECTRA_VERIF_HOOK_H
+
+#ifdef SPECTRA_VERIF
+
+#include <exception>
+
+namespace Spectra {
+namespace verif {
+
+// Receives events. `obj` is the `this` pointer of the emitting object,
+// `vals[0..n)` is the integer payload.
+struct Sink
+{
+    virtual void event(const char* name, const void* obj, const long long* vals, int n) = 0;
+    virtual ~Sink() {}
+};
+
+// Per-thread sink pointer; null (the default) means "no tracing".
+inline Sink*& sink()
+{
+    static thread_local Sink* s = nullptr;
+    return s;
+}
+
+// Defined by the harness; instrumented classes declare it a friend.
+struct Access;
+
+// Runs a callable when the enclosing scope is left normally
+// (not during stack unwinding).
+template <typename F>
+struct ScopeExit
+{
+    F fn;
+    explicit ScopeExit(F f) : fn(f) {}
+    ~ScopeExit()
+    {
+        if (!std::uncaught_exception())
+            fn();
+    }
+};
+
+}  // namespace verif
+}  // namespace Spectra
+
+#define SPECTRA_VERIF_EVENT(name, obj, ...)                                                        \
+    do                                                                                             \
+    {                                                                                              \
+        if (::Spectra::verif::sink())                                                              \
+        {                                                                                          \
+            const long long verif_vals_[] = {0, __VA_ARGS__};                                      \
+            ::Spectra::verif::sink()->event(name, static_cast<const void*>(obj), verif_vals_ + 1,  \
+                                            int(sizeof(verif_vals_) / sizeof(verif_vals_[0])) - 1); \
+        }                                                                                          \
+    } while (0)
+
+// Emits the event when the enclosing scope is left normally; the payload
+// expressions are evaluated at that moment.
+#define SPECTRA_VERIF_EVENT_AT_EXIT(name, obj, ...)                               \
+    auto verif_exit_fn_ = [&]() { SPECTRA_VERIF_EVENT(name, obj, __VA_ARGS__); }; \
+    ::Spectra::verif::ScopeExit<decltype(verif_exit_fn_)> verif_exit_guard_(verif_exit_fn_)
+
+#define SPECTRA_VERIF_FRIEND friend struct ::Spectra::verif::Access;
+
+#else  // SPECTRA_VERIF
+
+#define SPECTRA_VERIF_EVENT(...) ((void) 0)
+#define SPECTRA_VERIF_EVENT_AT_EXIT(...) ((void) 0)
+#define SPECTRA_VERIF_FRIEND
+
+#endif  // SPECTRA_VERIF
+
+#endif  // SPECTRA_VERIF_HOOK_H
